@@ -217,6 +217,18 @@ chk("C16", "model_checking",
     "TLA+ spec FormFactor.tla (exact integer decisions per entry) model-checked by TLC + grid replay of FormFactor",
     "DESIGN.md section 7 C16")
 
+chk("C17", "exploration",
+    "CifModel.tla states the ingestion as a table of field-derivation rules (source item, conversion, default per field) and TLC "
+    "enumerates the full product of file configurations (1152 CIF + 16 PDB) checking that every field is derived exactly once, B values "
+    "are always and U values never converted, and that the multiplicity is computed exactly when no key is present. For each "
+    "configuration (quick: 380 CIF + 32 PDB) a real file with seeded content (random group of the 230, 1-12 atoms, esds, blanks in the "
+    "symbol, extra global block, '?' dispersion...) is written, read with build_atomlist and compared field by field with the plan applied "
+    "to the numbers as printed; computed site multiplicities come from Multiplicity.tla (exact orbit sizes).",
+    "TLC supplies the case space and the rules, not text-level fidelity: PyCifRW, float() and the generator's CIF subset are trusted. This is a "
+    "specification-driven conformance exploration, not a proof over all files.",
+    "TLA+ spec CifModel.tla (rule table, configuration product enumerated by TLC) + Multiplicity.tla; generated files replayed into build_atomlist",
+    "DESIGN.md section 7 C17")
+
 ALL = ["C%02d" % i for i in range(1, 21)]
 
 
